@@ -380,7 +380,56 @@ static void gen(void)
 		}
 		usim_describe("]");
 	}
-	usim_describe("]}");
+	usim_describe("]");
+	/*
+	 * Per-CPU helper life cycle in focus (a quarter of the callrcu/barrier runs):
+	 * thread 0 creates the per-CPU helpers first and tears them down (all at
+	 * once, or one CPU the documented way) somewhere later, while the other
+	 * threads mostly call_rcu().
+	 */
+	if (mode != 2 && nthreads >= 2 && usim_param("percpu_focus", rnd(4) == 0)) {
+		struct script *s0 = &scripts[0];
+		if (s0->nops < 2)
+			s0->nops = 2;
+		s0->ops[0].kind = OP_PC_ON;
+		s0->ops[0].a = rnd(3) == 0;
+		i = 1 + (int) rnd(s0->nops - 1);
+		s0->ops[i].kind = rnd(2) ? OP_PC_OFF : OP_PC_FREE_ONE;
+		s0->ops[i].a = rnd(6);
+		for (t = 1; t < nthreads; t++)
+			for (i = 0; i < scripts[t].nops; i++)
+				if (rnd(100) < 50) {
+					scripts[t].ops[i].kind = OP_CALL;
+					scripts[t].ops[i].c = 0;
+				}
+		usim_describe(",\"percpu_focus\":1");
+	}
+	/*
+	 * Per-thread helper torn down with callbacks still queued while others run
+	 * rcu_barrier() (a quarter of the barrier runs, some callrcu runs).
+	 */
+	if (mode != 2 && nthreads >= 2 && usim_param("perthread_focus", rnd(mode == 1 ? 4 : 8) == 0)) {
+		int v = (int) rnd(nthreads), k = 0;
+		struct script *sv = &scripts[v];
+		if (sv->nops < 3)
+			sv->nops = 3;
+		sv->ops[k].kind = OP_PT_ON;
+		sv->ops[k++].a = rnd(3) == 0;
+		while (k < sv->nops - 1 && k < 4) {
+			sv->ops[k].kind = rnd(3) ? OP_CALL : OP_UPDATE_CALL;
+			sv->ops[k].c = rnd(4) == 0;
+			sv->ops[k++].b = rnd(4);
+		}
+		sv->ops[k].kind = OP_PT_OFF;
+		for (t = 0; t < nthreads; t++)
+			for (i = 0; t != v && i < scripts[t].nops; i++)
+				if (rnd(100) < 45) {
+					scripts[t].ops[i].kind = OP_BARRIER;
+					scripts[t].ops[i].b = rnd(4);
+				}
+		usim_describe(",\"perthread_focus\":%d", v);
+	}
+	usim_describe("}");
 	script_apply_skips(scripts, nthreads);
 }
 
